@@ -473,3 +473,17 @@ Proof.
     + rewrite apply_switches_length. exact Hl.
     + rewrite sw_apply_switches. apply fold_toggle_diffpos. rewrite !sw_length. lia.
 Qed.
+
+(* final form, with the transformation spelled out *)
+Lemma switches_def : forall p0 p1, length p0 = length p1 ->
+  (exists ss, NoDup ss /\ (forall j, In j ss -> S j < length p0) /\
+              length ss = hamming (switch_encoding p0) (switch_encoding p1) /\
+              (apply_switches ss p0 = p1 \/ apply_switches ss p0 = complement p1)) /\
+  (forall ss, (apply_switches ss p0 = p1 \/ apply_switches ss p0 = complement p1) ->
+              hamming (switch_encoding p0) (switch_encoding p1) <= length ss).
+Proof.
+  intros p0 p1 Hl. split.
+  - destruct (switches_attained p0 p1 Hl) as [ss [H1 [H2 [H3 H4]]]].
+    exists ss. repeat split; try assumption. apply transforms_iff. exact H4.
+  - intros ss H. apply switches_lower_bound. apply transforms_iff. exact H.
+Qed.
